@@ -283,7 +283,11 @@ for _p, _t in _ADD.items():
 # ---- rules added after the fifth round (mutation sweeps): appended to the claim text
 _GEN = ('Shared generic rules applied to the files of the property (-K): names read but bound on no path (deleted defining statement; declared-only '
         'C accumulators and memoryviews), private fields read but never written, sibling guard census (a validation every sibling of a family '
-        'performs must not be missing or inverted in one), sibling parameter defaults, argument order at calls whose parameter names are known. '
+        'performs must not be missing or inverted in one), sibling parameter defaults, argument order at calls whose parameter names are known; '
+        'order of validation and state change in non-constructor methods (a field stored, a container reset or refilled, before the test that rejects the '
+        'argument -- also when the rejection sits in the refresh helper called after the store), already-done memos whose key omits an argument the skipped '
+        'work depends on, kept arrays that may be the caller\'s buffer together with kept values derived from them, module-level scratch arrays only partly '
+        'overwritten before use. '
         'If an anchored construct vanishes, these rules decide whether the reason is a positive defect (violation) before the run is declared an analysis error.')
 _ADD2 = {
  'C06': 'valid_charge, RecursiveDict and getters as above; deletions of a defining statement in an updater or getter are reported as unbound names.',
